@@ -1547,9 +1547,13 @@ func (t *tScreen) parseClipboard(buf *bytes.Buffer, evs *[]Event) (bool, bool) {
 		// definitely not a match
 		return false, false
 	}
+	if !bytes.HasPrefix(b, prefix) {
+		// some other sequence that is merely long enough
+		return false, false
+	}
 	b = b[len(prefix):]
 
-	for _, c := range b {
+	for i, c := range b {
 		// valid base64 digits
 		if state == 0 {
 			if (c >= 'A' && c <= 'Z') || (c >= 'a' && c <= 'z') || (c >= '0' && c <= '9') || (c == '+') || (c == '/') || (c == '=') {
@@ -1560,26 +1564,29 @@ func (t *tScreen) parseClipboard(buf *bytes.Buffer, evs *[]Event) (bool, bool) {
 				continue
 			}
 			if c == '\a' {
-				// matched with BEL instead of ST
-				b = b[:len(b)-1] // drop the trailing BEL
+				// matched with BEL instead of ST; the payload ends
+				// here, whatever else follows in the buffer
+				b = b[:i]
 				decoded := make([]byte, base64.StdEncoding.DecodedLen(len(b)))
 				if num, err := base64.StdEncoding.Decode(decoded, b); err == nil {
 					*evs = append(*evs, NewEventClipboard(decoded[:num]))
 				}
-				_, _ = buf.ReadBytes('\a')
+				// consume exactly the reply
+				buf.Next(len(prefix) + i + 1)
 				return true, true
 			}
 			return false, false
 		}
 		if state == 1 {
 			if c == '\\' {
-				b = b[:len(b)-2] // drop the trailing ST (\x1b\\)
+				b = b[:i-1] // drop the ST (\x1b\\) that ends here
 				// now decode the data
 				decoded := make([]byte, base64.StdEncoding.DecodedLen(len(b)))
 				if num, err := base64.StdEncoding.Decode(decoded, b); err == nil {
 					*evs = append(*evs, NewEventClipboard(decoded[:num]))
 				}
-				_, _ = buf.ReadBytes('\\')
+				// consume exactly the reply
+				buf.Next(len(prefix) + i + 1)
 				return true, true
 			}
 			return false, false
